@@ -62,9 +62,10 @@ def configs(prop, tier):
         base = dict(Ops0=["cls", "pres"], RegOps=["evq", "condq", "enabq", "ptrq", "ntrq"],
                     RegWrites=["enab", "ptr", "ntr", "setcond"], RegVals=vals)
         cs = [("oper", dict(base, Regs=["OPER"])), ("ques", dict(base, Regs=["QUES"]))]
-        # out-of-range writes fail and leave the register unchanged (small separate projection)
+        # full-width in-range writes on both register sets (out-of-range writes are judged in the trace direction,
+        # where the error the library chooses is bound from the observation instead of being fixed by the model)
         cs.append(("range", dict(Ops0=["errq"], RegOps=["enabq", "ptrq", "ntrq"], RegWrites=["enab", "ptr", "ntr"],
-                                 Regs=["OPER", "QUES"], RegVals=[5, 65535, 65536, -1], MaxQ=1)))
+                                 Regs=["OPER", "QUES"], RegVals=[5, 65535, 32767], MaxQ=1)))
         return cs, list(range(15))
     if prop == "C16":
         sre_all = bits([2, 3, 4, 5, 7])
@@ -79,8 +80,8 @@ def configs(prop, tier):
         cs.append(("misc", dict(Ops0=["eseq", "sreq", "opcq", "rst", "wai", "tstq", "stbq", "esrq", "cls", "idnq", "versq"], EseVals=[0, 1, 32, 33],
                                 SreVals=[0, 32, 255], SreInitVals=[0, 32, 255], FailErrs=[{"code": -113, "ext": 0}],
                                 Regs=["OPER", "QUES"], RegWrites=["setcond", "enab"], RegVals=[0, 1], RegOps=["evq"], Mavs=[False, True], MaxQ=1, Tst=-330)))
-        cs.append(("writes", dict(Ops0=["eseq", "sreq", "esrq", "errq", "cls"], EseVals=[0, 1, 128, 255, 256, -1, 65536],
-                                  SreVals=[0, 64, 255, 256, -1], SreInitVals=[0, 64, 255, 256, -1], MaxQ=1)))
+        cs.append(("writes", dict(Ops0=["eseq", "sreq", "esrq", "errq", "cls"], EseVals=[0, 1, 128, 255, 170],
+                                  SreVals=[0, 64, 255, 85], SreInitVals=[0, 64, 255, 85], MaxQ=1)))
         # bit 15 never takes part in a summary (reported values have bit 15 clear)
         cs.append(("bit15", dict(Ops0=["stbq", "cls"], RegOps=["condq", "enabq"], RegWrites=["enab", "setcond"], Regs=["OPER", "QUES"],
                                  RegVals=[0, 32768, 32769], SreVals=[255], SreInitVals=[255], Mavs=[False])))
